@@ -756,6 +756,17 @@ nodesLoop:
 					if err != nil {
 						panic(tc.errorf(node, "cannot show %s (%s)", expr, err))
 					}
+					if ti.Untyped() && !ti.IsConstant() {
+						// An untyped value that is not a constant, as a shift
+						// of an untyped constant, takes its default type: its
+						// operands must be valid for that type.
+						if _, err := tc.convert(ti, expr, ti.Type); err != nil {
+							if err == errTypeConversion {
+								panic(tc.errorf(node, "cannot show %s (type %s)", expr, ti.Type))
+							}
+							panic(tc.errorf(node, "%s", err))
+						}
+					}
 				}
 				ti := tis.TypeInfo()
 				ti.setValue(nil)
